@@ -3,6 +3,7 @@ package jsonrpc2
 import (
 	"context"
 	"encoding/json"
+	"errors"
 	"fmt"
 
 	"github.com/vipnode/vipnode/v2/internal/verifapi"
@@ -16,6 +17,49 @@ type VerifLedger struct {
 func (l *VerifLedger) Transfer(ctx context.Context, to string, amount int64) (int64, error) {
 	l.ran = append(l.ran, amount)
 	return amount, nil
+}
+
+// Broken returns a value encoding/json cannot encode.
+func (l *VerifLedger) Broken(ctx context.Context) (chan int, error) { return make(chan int), nil }
+
+// Refuse fails.
+func (l *VerifLedger) Refuse(ctx context.Context) (int64, error) { return 0, errors.New("refused") }
+
+// Void returns nothing.
+func (l *VerifLedger) Void(ctx context.Context) error { return nil }
+
+// VerifC15Results: Server.Handle with registered methods whose outcome is a
+// value, an error, nothing, or a value that cannot be encoded: the reply
+// always carries the request's own id and version and either a result or an
+// error - an unencodable result is answered with an error.
+func VerifC15Results() {
+	srv := &Server{}
+	if err := srv.Register("bank_", &VerifLedger{}); err != nil {
+		verifapi.Unreachable("c15.results-register")
+	}
+	id := []json.RawMessage{json.RawMessage("5"), json.RawMessage(`"abc"`)}[verifapi.Choose("id", 2)]
+	full, _ := json.Marshal([]interface{}{"alice", verifapi.Int64("amount")})
+	kind := verifapi.Choose("call", 5)
+	req := &Request{Method: []string{"bank_transfer", "bank_transfer", "bank_broken", "bank_refuse", "bank_void"}[kind]}
+	if kind == 0 {
+		req.Params = full
+	}
+	out := srv.Handle(context.Background(), &Message{ID: id, Version: Version, Request: req})
+	verifapi.Reach("c15.results")
+	verifapi.Assert(out != nil && out.Response != nil, "c15.handle-always-replies")
+	if out == nil || out.Response == nil {
+		return
+	}
+	verifapi.Assert(string(out.ID) == string(id), "c15.handle-reply-carries-request-id")
+	verifapi.Assert(out.Version == Version, "c15.handle-reply-version")
+	switch kind {
+	case 0:
+		verifapi.Assert(out.Response.Error == nil && len(out.Response.Result) > 0, "c15.results.value-is-returned")
+	case 1, 2, 3:
+		verifapi.Assert(out.Response.Error != nil, "c15.results.failure-is-an-error-reply")
+	case 4:
+		verifapi.Assert(out.Response.Error == nil, "c15.results.void-is-not-an-error")
+	}
 }
 
 // VerifC16Stream: a connection served by the real Remote/Server over the
